@@ -245,11 +245,52 @@ func (m *Model) backfillSites() []*SQLSite {
 				callsConv = true
 			}
 		})
+		if !callsConv {
+			// ... or hands the result set to a helper that does
+			callsConv = m.rowsHelperCallsConverter(s.Fn, s.Call, 0)
+		}
 		if callsConv {
 			out = append(out, s)
 		}
 	}
 	return out
+}
+
+// rowsHelperCallsConverter: a package function that is handed the *sql.Rows produced in fn
+// (by call `src`, or received as a parameter when src is nil) calls the event converter.
+func (m *Model) rowsHelperCallsConverter(fn *ssa.Function, src ssa.CallInstruction, depth int) bool {
+	if depth > 2 {
+		return false
+	}
+	isRowsT := func(t types.Type) bool {
+		pt, ok := t.(*types.Pointer)
+		return ok && isNamed(pt.Elem(), "database/sql", "Rows")
+	}
+	found := false
+	m.eachCall(fn, func(c ssa.CallInstruction) {
+		callee := c.Common().StaticCallee()
+		if found || callee == nil || !m.inPkg(callee) || len(callee.Blocks) == 0 || c == src {
+			return
+		}
+		gets := false
+		for _, a := range c.Common().Args {
+			if isRowsT(a.Type()) {
+				gets = true
+			}
+		}
+		if !gets {
+			return
+		}
+		m.eachCall(callee, func(c2 ssa.CallInstruction) {
+			if c2.Common().StaticCallee() == m.A.Converter {
+				found = true
+			}
+		})
+		if !found && m.rowsHelperCallsConverter(callee, nil, depth+1) {
+			found = true
+		}
+	})
+	return found
 }
 
 func (m *Model) ruleBACKFILL(r *Results) {
@@ -520,6 +561,82 @@ func (m *Model) ruleEXPSQL(r *Results) {
 			problems = append(problems, "extra conjunct(s) "+strings.Join(extra, ", "))
 		}
 		r.check(len(problems) == 0, rule, key+" / expiry-scan", pos, "due = rows of this collection with 0 < exp <= now", strings.Join(problems, "; "))
+		// Go side: the list of keys to delete is made of the rows of this scan only - it starts
+		// empty (not with what an earlier pass, or another collection's pass, left in a buffer)
+		for _, sc := range m.scansOfSite(s) {
+			for _, d := range sc.Dests {
+				d = stripConv(d)
+				for _, b := range sc.Fn.Blocks {
+					for _, ins := range b.Instrs {
+						call, ok := ins.(*ssa.Call)
+						if !ok || !isBuiltinCall(call, "append") || len(call.Common().Args) != 2 {
+							continue
+						}
+						sl, ok := call.Common().Args[1].(*ssa.Slice)
+						if !ok {
+							continue
+						}
+						vals, dyn := varargValues(sl)
+						if dyn || len(vals) != 1 {
+							continue
+						}
+						ld, ok := stripConv(vals[0]).(*ssa.UnOp)
+						if !ok || ld.Op != token.MUL || stripConv(ld.X) != d {
+							continue
+						}
+						bad := ""
+						seen := map[ssa.Value]bool{}
+						var start func(v ssa.Value)
+						start = func(v ssa.Value) {
+							v = stripConv(v)
+							if seen[v] {
+								return
+							}
+							seen[v] = true
+							switch x := v.(type) {
+							case *ssa.Const:
+								if x.Value != nil {
+									bad = m.pos(x.Pos())
+								}
+							case *ssa.Phi:
+								for _, e := range x.Edges {
+									start(e)
+								}
+							case *ssa.Call:
+								if x == call {
+									return
+								}
+								if isBuiltinCall(x, "append") {
+									start(x.Common().Args[0])
+									return
+								}
+								bad = m.instrPos(x)
+							case *ssa.MakeSlice:
+								if k, ok := x.Len.(*ssa.Const); !ok || k.Value == nil || !isZeroConst(k) {
+									bad = m.instrPos(x)
+								}
+							case *ssa.Slice:
+								if k, ok := x.High.(*ssa.Const); !ok || !isZeroConst(k) {
+									bad = m.instrPos(x)
+								}
+							case *ssa.UnOp:
+								if al, ok := x.X.(*ssa.Alloc); ok && x.Op == token.MUL {
+									for _, st := range cellStores(al) {
+										start(st.Val)
+									}
+									return
+								}
+								bad = m.instrPos(x)
+							default:
+								bad = m.pos(v.Pos())
+							}
+						}
+						start(call.Common().Args[0])
+						r.check(bad == "", rule, m.declName(sc.Fn)+" / the keys to expire are those the scan returned", m.instrPos(call), "the list the due keys are appended to starts empty", "the list the due keys are appended to does not start empty (it starts from the value at "+bad+"): keys left in it by another pass - another collection's keys - are deleted from this collection as if they had expired there")
+					}
+				}
+			}
+		}
 	})
 	if nScan == 0 {
 		r.undecided(rule, "expiry scan", "-", "no SELECT on documents with a predicate on exp found")
@@ -626,6 +743,51 @@ func (m *Model) ruleLIVE(r *Results) {
 	}
 	if nb < 4 {
 		r.undecided(rule, "body reads", "-", "only %d scans of the body column found", nb)
+	}
+	// ... and the deletion flag read into a local variable stays what the row said: nothing
+	// (the clock, the expiry) turns a live row into a deleted one after the read
+	for _, sc := range m.scanCalls() {
+		if sc.Site == nil {
+			continue
+		}
+		for i, d := range sc.Dests {
+			isFlag := false
+			for _, v := range sc.Site.Variants {
+				if st := v.Stmt(); st != nil && st.Select != nil && i < len(st.Select.Cols) && (isCol(st.Select.Cols[i].Expr, "tombstone") || hasBodyTest(st.Select.Cols[i].Expr) || noBodyTest(st.Select.Cols[i].Expr)) {
+					for _, t := range st.Tables() {
+						if t == "documents" {
+							isFlag = true
+						}
+					}
+				}
+			}
+			cell := stripConv(d)
+			switch cell.(type) {
+			case *ssa.Alloc, *ssa.FreeVar:
+			default:
+				continue
+			}
+			if !isFlag || sc.Call.Block() == nil {
+				continue
+			}
+			after := reachableFrom(sc.Call.Block(), nil)
+			bad := ""
+			for _, b := range sc.Fn.Blocks {
+				if !after[b.Index] && b != sc.Call.Block() {
+					continue
+				}
+				for _, ins := range b.Instrs {
+					if st, ok := ins.(*ssa.Store); ok && stripConv(st.Addr) == cell {
+						if b == sc.Call.Block() && indexIn(b, st) < indexIn(b, sc.Call.(ssa.Instruction)) && !inCycle(b) {
+							continue
+						}
+						bad = m.instrPos(st)
+					}
+				}
+			}
+			key := m.declName(sc.Fn) + " / the deletion flag read from the row is not overwritten"
+			r.check(bad == "", rule, key, m.instrPos(sc.Call), "the variable the row's deletion flag was read into is written by the read only", "the variable holding the deletion flag read from the row is assigned again after the read (at "+bad+"): a live document is then treated as deleted (or a deleted one as live) by what follows, whatever the row says")
+		}
 	}
 	// a partial UPDATE (one that leaves the body alone: a touch, an xattr edit) applies to whatever
 	// row the key addresses, tombstone or not, unless the statement says otherwise; the transaction
